@@ -99,6 +99,7 @@ type Engine struct {
 	hook        *hooks
 	env         map[string]Value
 	inInit      bool
+	crcExactMode bool
 }
 
 type Observe struct {
@@ -130,7 +131,7 @@ func NewEngine(prog *ssa.Program, opts Options) (*Engine, error) {
 	if opts.AllocCap == 0 {
 		opts.AllocCap = 64
 	}
-	s, err := NewSolver("z3", tt, opts.TimeoutMs)
+	s, err := NewSolver("z3-new", tt, opts.TimeoutMs)
 	if err != nil {
 		return nil, err
 	}
@@ -419,28 +420,23 @@ func (e *Engine) checkSat(pc []*Term, extra *Term, want []*Term) (Result, []uint
 	}
 	if e.solver.dead {
 		e.solver.Close()
-		s, err := NewSolver("z3", e.tt, e.opts.TimeoutMs)
+		s, err := NewSolver("z3-new", e.tt, e.opts.TimeoutMs)
 		if err != nil {
 			e.abort("cannot restart solver")
 		}
 		s.Queries, s.TimeSpent = e.solver.Queries, e.solver.TimeSpent
 		e.solver = s
 	}
-	// first attempt: z3 4.8.12 with a short timeout
-	quick := 2500
-	if quick > e.opts.TimeoutMs {
-		quick = e.opts.TimeoutMs
-	}
-	e.solver.SetTimeout(quick)
+	// primary: z3 5.1.0
 	r, vals, msg := e.solver.Check(as, want)
-	name := "z3-4.8.12"
+	name := "z3-5.1.0"
 	if r == Unknown {
-		// second attempt: z3 5.1.0 with the full timeout
+		// second attempt: z3 4.8.12 (hard-killed if it does not honour the timeout)
 		if e.solver2 == nil || e.solver2.dead {
 			if e.solver2 != nil {
 				e.solver2.Close()
 			}
-			s2, err := NewSolver("z3-new", e.tt, e.opts.TimeoutMs)
+			s2, err := NewSolver("z3", e.tt, e.opts.TimeoutMs)
 			if err == nil {
 				e.solver2 = s2
 			}
@@ -448,18 +444,9 @@ func (e *Engine) checkSat(pc []*Term, extra *Term, want []*Term) (Result, []uint
 		if e.solver2 != nil {
 			r2, v2, m2 := e.solver2.Check(as, want)
 			if r2 != Unknown {
-				return r2, v2, m2, "z3-5.1.0"
+				return r2, v2, m2, "z3-4.8.12"
 			}
-			msg += "; z3-new: " + m2
-		}
-		// third: z3 4.8.12 with the full timeout
-		if quick < e.opts.TimeoutMs && !e.solver.dead {
-			e.solver.SetTimeout(e.opts.TimeoutMs)
-			r1, v1, m1 := e.solver.Check(as, want)
-			if r1 != Unknown {
-				return r1, v1, m1, name
-			}
-			msg += "; z3 full: " + m1
+			msg += "; z3-4.8.12: " + m2
 		}
 		// last resort: cvc5, one-shot
 		s3, err := NewSolver("cvc5", e.tt, e.opts.TimeoutMs)
@@ -476,7 +463,18 @@ func (e *Engine) checkSat(pc []*Term, extra *Term, want []*Term) (Result, []uint
 }
 
 func (e *Engine) feasible(st *State, c *Term) bool {
+	t0 := time.Now()
 	r, _, _, _ := e.checkSat(st.pc, c, nil)
+	if os.Getenv("GOSMT_PROGRESS") != "" && time.Since(t0) > 2*time.Second {
+		cs := "nil"
+		if c != nil {
+			cs = c.String()
+		}
+		fmt.Fprintf(os.Stderr, "[%s] slow feasibility check -> %v (%dms) cond=%s\n", e.harness, r, time.Since(t0).Milliseconds(), firstN(cs, 1500))
+		for i := len(st.pc) - 1; i >= 0 && i >= len(st.pc)-3; i-- {
+			fmt.Fprintf(os.Stderr, "      pc[%d]=%s\n", i, firstN(st.pc[i].String(), 1200))
+		}
+	}
 	return r != Unsat // unknown = keep
 }
 
@@ -564,6 +562,9 @@ func (e *Engine) prove(st *State, kind, label string, cond *Term, ins ssa.Instru
 	r, vals, msg, sname := e.checkSat(st.pc, q, e.wantTerms())
 	ob.Solver = sname
 	ob.TimeMs = time.Since(t0).Milliseconds()
+	if os.Getenv("GOSMT_PROGRESS") != "" {
+		fmt.Fprintf(os.Stderr, "[%s] %s %s -> %v (%s, %dms) %s\n", e.harness, kind, label, r, sname, ob.TimeMs, msg)
+	}
 	switch r {
 	case Unsat:
 		ob.Verdict = "holds"
@@ -629,7 +630,10 @@ func compactInputs(in map[string]interface{}) string {
 
 func (e *Engine) crossCheck(pc []*Term, q *Term, ob *Obligation) {
 	if e.solver2 == nil || e.solver2.dead {
-		s2, err := NewSolver("z3-new", e.tt, e.opts.TimeoutMs)
+		if e.solver2 != nil {
+			e.solver2.Close()
+		}
+		s2, err := NewSolver("z3", e.tt, 10000)
 		if err != nil {
 			return
 		}
@@ -639,10 +643,10 @@ func (e *Engine) crossCheck(pc []*Term, q *Term, ob *Obligation) {
 	r, _, _ := e.solver2.Check(as, nil)
 	switch r {
 	case Unsat:
-		ob.Solver += "+z3-5.1.0"
+		ob.Solver += "+z3-4.8.12"
 	case Sat:
 		ob.Verdict = "inconclusive"
-		ob.Detail = "solver disagreement: z3-4.8.12 unsat, z3-5.1.0 sat"
+		ob.Detail = "solver disagreement: z3-5.1.0 unsat, z3-4.8.12 sat"
 	}
 }
 
